@@ -50,7 +50,10 @@ def sv_patterns(k):
     pats = {"full": [float(k - i) for i in range(k)],
             "graded": [10.0 ** (-2 * i) for i in range(k)],
             "big": [1e6 * (k - i) for i in range(k)],
-            "small": [1e-6 * (k - i) for i in range(k)]}
+            "small": [1e-6 * (k - i) for i in range(k)],
+            # well conditioned, but tiny / huge in ABSOLUTE terms (a problem expressed in other units): rcond is relative
+            "tiny": [1e-17 * (k - i) for i in range(k)],
+            "huge": [1e17 * (k - i) for i in range(k)]}
     if k >= 2:
         pats["rankdef"] = [float(k - i) for i in range(k - 1)] + [0.0]
         pats["repeated"] = [2.0] * (k - 1) + [0.5]
@@ -401,7 +404,7 @@ def reconfig_cases():
         F = O.FAMILIES[fam]
         nk = F["nk"]
         for x0 in ([0.1] * nk, [2.0 - 0.5 * i for i in range(nk)]):
-            for what in ("limits-widened", "limits-moved", "weights", "weights+limits"):
+            for what in ("limits-widened", "limits-moved", "weights", "weights+limits", "moved-after-solve"):
                 for kw in (None, (2.0, 0.5, 4.0)[:nk]):
                     yield {"fam": fam, "x0": x0, "kw": kw, "tw": None, "tol": 1e-8, "nsm": 20, "reconf": what,
                            "limits": [(x - 0.05, x + 0.05) for x in x0] if what.startswith("limits") else [(-50.0, 50.0)] * nk}
@@ -486,6 +489,19 @@ def check_reconfig(spec, out):
     p = O.Problem(spec)
     what = None
     try:
+        if spec["reconf"] == "moved-after-solve":
+            # a successful solve(); the user then moves the knobs directly in their container (nothing is evaluated); solve() again
+            # must do its work again and end on a solution
+            p.opt.solve()
+            for i in range(p.nk):
+                p.knobs[p.kn[i]] = dict.__getitem__(p.knobs, p.kn[i]) + 0.3 * (i + 1)
+            p.opt.solve()
+            k = p.knob_values()
+            err = max(abs(v - t) for v, t in zip(p.f(k), p.tvals))
+            if err > 1e-6:
+                what = (f"solve() ; knobs moved by hand ; solve() returned normally and leaves the targets of a linear problem off by {err:.3e} "
+                        f"(knobs {k!r})")
+            raise StopIteration
         p.opt.step(1)
         new_w = [0.01, 3.0, 0.5][:p.nk]
         for i, v in enumerate(p.opt.vary):
@@ -506,6 +522,8 @@ def check_reconfig(spec, out):
         if err > 1e-6:
             what = (f"after the knobs' {spec['reconf']} were edited, a Jacobian step of the same optimizer leaves the targets of a linear problem "
                     f"off by {err:.3e} (knobs {k!r})")
+    except StopIteration:
+        pass
     except Exception as e:  # noqa
         what = f"sequence raised {type(e).__name__}: {e}"
     out["distinct"].add(("reconfig", spec["fam"], tuple(spec["x0"]), spec["reconf"], spec["kw"] is None))
@@ -552,21 +570,21 @@ def check_scalings(out):
     # rescale_x
     lims = [(-1.0, 2.0), (0.0, 1.0), (-5.0, -1.0), (3.0, 1e3), (-1e-3, 1e-3), (-2.0, 2.0)]
     ranges = [(0, 1), (-1, 1), (2, 5), (-3.0, -1.0)]
-    fr = [0.0, 0.125, 0.5, 0.9, 1.0]
+    fr = [0.0, 0.125, 0.5, 0.9, 1.0, -0.25, 1.5]      # the last two lie OUTSIDE the limits: the mappings are affine, not clipped
     for l3 in itertools.product(lims, repeat=3):
         for ws in ((1.0, 1.0, 1.0), (2.0, 0.5, 4.0)):
             q = O.Problem({"fam": "ident3", "x0": [0.5 * (a + b) for a, b in l3], "limits": list(l3), "kw": ws})
             for rg in ranges:
                 view = q.opt.get_merit_function(rescale_x=rg, check_limits=False)
-                for f3 in ((fr[i], fr[(i + 2) % 5], fr[(i + 3) % 5]) for i in range(5)):
+                for f3 in ((fr[i], fr[(i + 2) % len(fr)], fr[(i + 3) % len(fr)]) for i in range(len(fr))):
                     out["evaluations"] += 1
                     xs = np.array([rg[0] + f * (rg[1] - rg[0]) for f in f3])
                     xn = view._scaled_to_native(xs)
                     xs2 = view._scaled_from_native(xn)
                     xn2 = view._scaled_to_native(xs2)
                     exp_native = [(lo + f * (hi - lo)) / w for (lo, hi), f, w in zip(l3, f3, ws)]
-                    tol_n = [8 * math.ulp(max(abs(lo), abs(hi)) / w) for (lo, hi), w in zip(l3, ws)]
-                    tol_s = 8 * math.ulp(max(abs(rg[0]), abs(rg[1]), 1.0))
+                    tol_n = [16 * math.ulp(max(abs(lo), abs(hi), hi - lo) / w) for (lo, hi), w in zip(l3, ws)]
+                    tol_s = 16 * math.ulp(max(abs(rg[0]), abs(rg[1]), 1.0))
                     what = None
                     if any(abs(float(a) - b) > t for a, b, t in zip(xn, exp_native, tol_n)):
                         what = f"_scaled_to_native({xs.tolist()}) = {xn.tolist()}, the affine map of the limits gives {exp_native}"
